@@ -231,8 +231,9 @@ CHECKS = {
              "budget); readline results contain CRLF only at their end and "
              "are cut only by the size limit, exhaustion or an empty read; "
              "every call returns within fuel > max(n, size) (no spinning); "
-             "completeness when a blocking stream reports end of input. "
-             "Correspondence on the exhaustive small-alphabet grid and long "
+             "completeness when a blocking stream reports end of input; the "
+             "definitions generated from the current source of read/readline "
+             "equal the model (timeout=None). Correspondence on the exhaustive small-alphabet grid and long "
              "bodies with CRLFs on block edges; monitor from the property "
              "text with an instrumented stream.",
         design="7/C09",
@@ -242,7 +243,9 @@ CHECKS = {
              "requested <= n' is proved per request against the remaining "
              "budget (the literal sum is false under short reads).",
         technique="Coq proof (invariant by induction over call histories, "
-                  "fuel-bounded loop) + vm_compute correspondence"),
+                  "fuel-bounded loop) + source-to-Coq translation of "
+                  "CachedInput.read/readline with proved equality to the "
+                  "model + vm_compute correspondence"),
     "C10": dict(
         text="Theorems (all pair lists, all strings): parse_qsl(urlencode "
              "pairs) = pairs (blank values kept or dropped per setting) for "
